@@ -19,7 +19,7 @@ Record ref_entry := {
   r_parmax : parmax; r_scadef : scadef_kind; r_shape : shape; r_hash : Z; r_onRn : bool
 }.
 
-Definition Ref (name : string) (maxdim : option nat) (minorder : Z) (pm : parmax) (sc : scadef_kind)
+Definition mk_ref (name : string) (maxdim : option nat) (minorder : Z) (pm : parmax) (sc : scadef_kind)
              (sh : shape) (hash : Z) : ref_entry :=
   {| r_name := name; r_known := true; r_maxdim := maxdim; r_minorder := minorder; r_parmax := pm;
      r_scadef := sc; r_shape := sh; r_hash := hash; r_onRn := true |}.
@@ -29,37 +29,37 @@ Definition upto (n : nat) : option nat := Some n.
 Definition nopar : parmax := PMmax 0.
 
 Definition ref_table : list ref_entry := [
-  Ref "Nugget Effect"   alld     (-1) nopar (SCconst 1) ShPoly 0;
-  Ref "Exponential"     alld     (-1) nopar (SCconst (2995732#1000000)) ShOpaque 30846060088267;
-  Ref "Spherical"       (upto 3) (-1) nopar (SCconst 1) ShPoly 0;
-  Ref "Gaussian"        alld     (-1) nopar (SCconst (1730818#1000000)) ShOpaque 209249640405351;
-  Ref "Cubic"           (upto 3) (-1) nopar (SCconst 1) ShPoly 0;
+  mk_ref "Nugget Effect"   alld     (-1) nopar (SCconst 1) ShPoly 0;
+  mk_ref "Exponential"     alld     (-1) nopar (SCconst (2995732#1000000)) ShOpaque 30846060088267;
+  mk_ref "Spherical"       (upto 3) (-1) nopar (SCconst 1) ShPoly 0;
+  mk_ref "Gaussian"        alld     (-1) nopar (SCconst (1730818#1000000)) ShOpaque 209249640405351;
+  mk_ref "Cubic"           (upto 3) (-1) nopar (SCconst 1) ShPoly 0;
   (* sin(h)/h = J_{1/2}: valid up to R^3 only *)
-  Ref "Cardinal Sine"   (upto 3) (-1) nopar (SCconst (20371#1000)) ShOpaque 92268355471256;
+  mk_ref "Cardinal Sine"   (upto 3) (-1) nopar (SCconst (20371#1000)) ShOpaque 92268355471256;
   (* J_nu(h)/h^nu, 0 < nu <= 2: valid in R^d iff d <= 2 nu + 2; for every admissible nu only d <= 2 *)
-  Ref "J-Bessel"        (upto 2) (-1) (PMmax 2) (SCconst 1) ShOpaque 130270537090169;
-  Ref "Matern"          alld     (-1) (PMmax 1000) SCsqrt12param ShOpaque 218672723734076;
-  Ref "Gamma"           alld     (-1) (PMmax 1000) SCpow20inv_m1 ShOpaque 256574395154008;
-  Ref "Cauchy"          alld     (-1) (PMmax 1000) SCsqrtpow20inv_m1 ShOpaque 83073204644994;
-  Ref "Stable"          alld     (-1) (PMmax 2) SCpow3inv ShOpaque 41908116815587;
-  Ref "Linear"          alld     0    nopar (SCconst 1) ShPoly 0;
-  Ref "Power"           alld     0    (PMmax (199#100)) (SCconst 1) ShOpaque 273655749824194;
-  Ref "Order-1 G.C."    alld     0    nopar (SCconst 1) ShPoly 0;
-  Ref "Spline G.C."     alld     1    nopar (SCconst 1) ShOpaque 257943052984720;
-  Ref "Order-3 G.C."    alld     1    nopar (SCconst 1) ShPoly 0;
-  Ref "Order-5 G.C."    alld     2    nopar (SCconst 1) ShPoly 0;
-  Ref "Cosinus"         (upto 1) (-1) nopar (SCconst 1) ShOpaque 276226093259959;
-  Ref "Triangle"        (upto 1) (-1) nopar (SCconst 1) ShPoly 0;
+  mk_ref "J-Bessel"        (upto 2) (-1) (PMmax 2) (SCconst 1) ShOpaque 130270537090169;
+  mk_ref "Matern"          alld     (-1) (PMmax 1000) SCsqrt12param ShOpaque 218672723734076;
+  mk_ref "Gamma"           alld     (-1) (PMmax 1000) SCpow20inv_m1 ShOpaque 256574395154008;
+  mk_ref "Cauchy"          alld     (-1) (PMmax 1000) SCsqrtpow20inv_m1 ShOpaque 83073204644994;
+  mk_ref "Stable"          alld     (-1) (PMmax 2) SCpow3inv ShOpaque 41908116815587;
+  mk_ref "Linear"          alld     0    nopar (SCconst 1) ShPoly 0;
+  mk_ref "Power"           alld     0    (PMmax (199#100)) (SCconst 1) ShOpaque 273655749824194;
+  mk_ref "Order-1 G.C."    alld     0    nopar (SCconst 1) ShPoly 0;
+  mk_ref "Spline G.C."     alld     1    nopar (SCconst 1) ShOpaque 257943052984720;
+  mk_ref "Order-3 G.C."    alld     1    nopar (SCconst 1) ShPoly 0;
+  mk_ref "Order-5 G.C."    alld     2    nopar (SCconst 1) ShPoly 0;
+  mk_ref "Cosinus"         (upto 1) (-1) nopar (SCconst 1) ShOpaque 276226093259959;
+  mk_ref "Triangle"        (upto 1) (-1) nopar (SCconst 1) ShPoly 0;
   (* exp(-h) cos(b h): valid in R^1 for every b; in R^2 iff b <= 1, in R^3 iff b <= 1/sqrt 3 (b = 2 pi / param) *)
-  Ref "Cosexp"          (upto 1) (-1) PMunbounded (SCconst (2995732#1000000)) ShOpaque 126247278464172;
-  Ref "1-D Regularized" (upto 1) (-1) nopar (SCconst 2) ShPoly 0;
+  mk_ref "Cosexp"          (upto 1) (-1) PMunbounded (SCconst (2995732#1000000)) ShOpaque 126247278464172;
+  mk_ref "1-D Regularized" (upto 1) (-1) nopar (SCconst 2) ShPoly 0;
   (* the closed form of CovPenta.cpp is, verbatim, the one of CovReg1D.cpp (lemma penta_is_reg1d), not the
      pentaspherical model 1 - 15/8 h + 5/4 h^3 - 3/8 h^5 (valid in R^3): its reference is therefore R^1 *)
-  Ref "Penta"           (upto 1) (-1) nopar (SCconst 1) ShPoly 0;
-  Ref "Storkey"         (upto 1) (-1) nopar (SCconst 1) ShOpaque 126626720844775;
-  Ref "Wendland-2,0"    (upto 3) (-1) nopar (SCconst 1) ShPoly 0;
-  Ref "Wendland-3,1"    (upto 3) (-1) nopar (SCconst 1) ShPoly 0;
-  Ref "Wendland-4,2"    (upto 3) (-1) nopar (SCconst 1) ShPoly 0;
+  mk_ref "Penta"           (upto 1) (-1) nopar (SCconst 1) ShPoly 0;
+  mk_ref "Storkey"         (upto 1) (-1) nopar (SCconst 1) ShOpaque 126626720844775;
+  mk_ref "Wendland-2,0"    (upto 3) (-1) nopar (SCconst 1) ShPoly 0;
+  mk_ref "Wendland-3,1"    (upto 3) (-1) nopar (SCconst 1) ShPoly 0;
+  mk_ref "Wendland-4,2"    (upto 3) (-1) nopar (SCconst 1) ShPoly 0;
   (* no reference entered (generalised covariance of the "order-2 spline", spectral / sphere-only structures) *)
   {| r_name := "Spline-2 G.C."; r_known := false; r_maxdim := None; r_minorder := -1; r_parmax := nopar;
      r_scadef := SCconst 1; r_shape := ShOpaque; r_hash := 220679090864848; r_onRn := true |};
